@@ -423,6 +423,44 @@ func prevGo(gos []goRecord) string {
 	return goLine(gos[len(gos)-2].limits)
 }
 
+// genPositionStep draws a position command. Like a GUI during a game it often refers to an earlier one
+// of the session: the same line again (a second game from the same opening), the same line extended by
+// further moves (the game goes on), or a prefix of it (take-back); otherwise a fresh position.
+func genPositionStep(t *rapid.T, hist []uStep, maxPieces, maxPlies int) (uStep, rc.Pos) {
+	final := func(s uStep) rc.Pos {
+		start := s.Fen
+		if start == "" {
+			start = rc.StartFEN
+		}
+		ps, _ := hx.Playout{Start: start, Moves: s.Moves}.Replay()
+		return ps[len(ps)-1]
+	}
+	if len(hist) > 0 && rapid.IntRange(0, 2).Draw(t, "related") == 0 {
+		base := hist[rapid.IntRange(0, len(hist)-1).Draw(t, "earlier")]
+		st := uStep{Kind: "position", Fen: base.Fen, Moves: append([]string{}, base.Moves...)}
+		switch rapid.IntRange(0, 3).Draw(t, "relation") {
+		case 0, 1: // the game goes on
+			pl := hx.GenPlayoutFrom(t, final(st), 3, 1)
+			st.Moves = append(st.Moves, pl.Moves...)
+		case 2: // take-back
+			if len(st.Moves) > 0 {
+				st.Moves = st.Moves[:rapid.IntRange(0, len(st.Moves)-1).Draw(t, "keep")]
+			}
+		}
+		return st, final(st)
+	}
+	st := uStep{Kind: "position"}
+	p := rc.MustParse(rc.StartFEN)
+	if rapid.Bool().Draw(t, "fromFen") {
+		p = hx.GenStart(t, maxPieces)
+		st.Fen = p.FEN()
+	}
+	pl := hx.GenPlayoutFrom(t, p, maxPlies, 1)
+	st.Moves = pl.Moves
+	ps, _ := pl.Replay()
+	return st, ps[len(ps)-1]
+}
+
 func genUciCase(t *rapid.T, maxSteps int) uciCase {
 	var c uciCase
 	c.AfterResultUs = rapid.SampledFrom([]int{0, 0, 200, 1000, 3000}).Draw(t, "afterResultUs")
@@ -431,6 +469,7 @@ func genUciCase(t *rapid.T, maxSteps int) uciCase {
 	cur := rc.MustParse(rc.StartFEN)
 	searching, mode := false, ""
 	hit := false
+	var posHist []uStep
 	for i := 0; i < n; i++ {
 		var kinds []string
 		if searching {
@@ -474,16 +513,9 @@ func genUciCase(t *rapid.T, maxSteps int) uciCase {
 			c.Steps = append(c.Steps, uStep{Kind: "ucinewgame"})
 			cur = rc.MustParse(rc.StartFEN)
 		case "position":
-			st := uStep{Kind: "position"}
-			p := rc.MustParse(rc.StartFEN)
-			if rapid.Bool().Draw(t, "fromFen") {
-				p = hx.GenStart(t, 12)
-				st.Fen = p.FEN()
-			}
-			pl := hx.GenPlayoutFrom(t, p, 20, 1)
-			st.Moves = pl.Moves
-			ps, _ := pl.Replay()
-			cur = ps[len(ps)-1]
+			var st uStep
+			st, cur = genPositionStep(t, posHist, 12, 20)
+			posHist = append(posHist, st)
 			c.Steps = append(c.Steps, st)
 		case "setoption":
 			name := rapid.SampledFrom(optionNames).Draw(t, "opt")
